@@ -277,6 +277,29 @@ func soundRun(be int) func(w *Worker, tape *simrt.Tape) *Outcome {
 		if fx.hasCommitment() {
 			o.probe("circuit_with_commitment")
 		}
+		if be == beGroth16 {
+			// key-relation invariant of Setup: every commitment has its own proof-of-knowledge
+			// trapdoor. With a shared trapdoor a knowledge proof for one commitment's basis transfers
+			// to another's, so a commitment (hence its challenge) no longer binds its committed wires.
+			if cks := reflect.Indirect(reflect.ValueOf(fx.VK)).FieldByName("CommitmentKeys"); cks.IsValid() && cks.Kind() == reflect.Slice {
+				seen := map[string]int{}
+				for i := 0; i < cks.Len(); i++ {
+					g := cks.Index(i).FieldByName("GSigmaNeg")
+					if !g.IsValid() {
+						continue
+					}
+					k := fmt.Sprint(g.Interface())
+					if j, dup := seen[k]; dup {
+						o.violate("setup-keys-dependent", "setup-keys-dependent:groth16:commitment-trapdoor", fmt.Sprintf("commitment keys %d and %d of the verifying key share one proof-of-knowledge trapdoor (equal GSigmaNeg): a knowledge proof for one commitment's basis is valid for the other's\ncase: %s\nprog: %s", j, i, o.Desc, fx.Prog.String()))
+						return o
+					}
+					seen[k] = i
+				}
+				if cks.Len() >= 2 {
+					o.probe("commitment_trapdoors_compared")
+				}
+			}
+		}
 		// judge applies the ledger: legit says whether acceptance is permitted
 		judge := func(proof any, pw witness.Witness, legit bool, mustAccept bool, fdesc string) bool {
 			o.Evals++
